@@ -105,6 +105,19 @@ CLAIMED = {
             '(the relation checked is PixCoord\'s forwarding of origin/mode and '
             'shape handling).',
             'DESIGN.md section 5, C20'),
+    'C15': ('exploration',
+            'Hypothesis metamorphic tests: membership/area/parameters under '
+            'rotate(c, theta) and rotate back; bounding box and mask arrays '
+            'under integer translations of dyadic regions',
+            'Random search over all pixel classes incl. compounds, pivots on '
+            'and off the region, angles of any magnitude/unit; the library\'s '
+            'own contains() is compared before/after on points the reference '
+            'margin declares definite. Translation: masks must be '
+            'array-identical in centre/subpixels/exact modes (pixels with a '
+            'sample inside the rounding band excepted).',
+            'Reference rotation formula and margins in the harness; ambiguity '
+            'bands of vf/ref/geometry.py.',
+            'DESIGN.md section 5, C15'),
 }
 
 PENDING_REASON = ('check designed (DESIGN.md section 5) but not yet built and '
